@@ -43,12 +43,120 @@ theorem heldOf_set (s : St) (w v : Nat) (r r' : WLp) (h : s.wl[w]? = some r) :
   · subst hv; simp [hw]
   · simp [hv, List.getElem?_set_ne (Ne.symm hv)]
 
+/-! ### replacing one wrapped LP record / appending records -/
+
+theorem setW_delta (s : St) (w : Nat) (rw rw' : WLp) (h : s.wl[w]? = some rw) (hk : rw'.k = rw.k) :
+    C (setW s w rw') + rw.circ = C s + rw'.circ ∧
+    (∀ κ, R (setW s w rw') κ + (if rw.k = κ then rw.rem else 0)
+        = R s κ + (if rw.k = κ then rw'.rem else 0)) ∧
+    (∀ v, heldOf (setW s w rw') v = if v = w then rw'.held else heldOf s v) ∧
+    (WOk rw' → Pt s → Pt (setW s w rw')) := by
+  refine ⟨?_, ?_, fun v => heldOf_set s w v rw rw' h, ?_⟩
+  · have := sumOf_set (·.circ) s.wl w rw rw' h
+    simp only [C, setW] at *; omega
+  · intro κ
+    have := sumOf_set (remAt κ) s.wl w rw rw' h
+    simp only [R, setW]
+    by_cases hκ : rw.k = κ
+    · simp only [remAt, hk, hκ, if_true] at this ⊢; omega
+    · simp only [remAt, hk, hκ, if_false] at this ⊢; omega
+  · rintro hok ⟨hw, hf⟩
+    refine ⟨?_, hf⟩
+    intro r' hr'
+    rcases mem_set_cases hr' with rfl | hm
+    · exact hok
+    · exact hw r' hm
+
+theorem heldOf_append_new (s : St) (r : WLp) (v : Nat) :
+    heldOf { s with wl := s.wl ++ [r] } v = if v = s.wl.length then r.held else heldOf s v := by
+  unfold heldOf
+  by_cases hv : v = s.wl.length
+  · subst hv; simp
+  · simp only [hv, if_false]
+    by_cases hlt : v < s.wl.length
+    · simp [List.getElem?_append_left hlt]
+    · have hge : s.wl.length < v := by omega
+      have h1 : (s.wl ++ [r])[v]? = none := by
+        apply List.getElem?_eq_none; simp; omega
+      have h2 : s.wl[v]? = none := by
+        apply List.getElem?_eq_none; omega
+      simp [h1, h2]
+
+/-- `newW`: a new record whose reserve is exactly the locked tokens that arrive with it -/
+theorem newW_delta (s : St) (total k locked : Nat) (u : Bool) :
+    let s' := (newW s total k locked u).1
+    (newW s total k locked u).2 = s.wl.length ∧
+    C s' = C s + (if u then total else 0) ∧
+    (∀ κ, R s' κ = R s κ + (if k = κ then locked else 0)) ∧
+    (∀ κ, s'.lk κ = s.lk κ + (if k = κ then locked else 0)) ∧
+    (∀ v, heldOf s' v = if v = s.wl.length then (if u then 0 else total) else heldOf s v) ∧
+    s'.wf = s.wf ∧ s'.hf = s.hf ∧ s'.lp = s.lp ∧ (Pt s → Pt s') := by
+  refine ⟨rfl, ?_, ?_, ?_, ?_, rfl, rfl, rfl, ?_⟩
+  · cases u <;> simp [newW, C]
+  · intro κ
+    by_cases hk : k = κ <;> simp [newW, R, remAt, hk]
+    omega
+  · intro κ
+    by_cases hk : k = κ
+    · subst hk; simp [newW]
+    · simp [newW, hk, Ne.symm hk]
+  · intro v
+    have := heldOf_append_new { s with lk := s.lk.add k locked }
+      ⟨total, k, locked, if u then total else 0, if u then 0 else total, 0, locked⟩ v
+    simp only [newW] at this ⊢
+    rw [this]
+    by_cases hv : v = s.wl.length
+    · simp [hv]
+    · simp only [hv, if_false]; rfl
+  · rintro ⟨hw, hf⟩
+    refine ⟨?_, hf⟩
+    intro r hr
+    simp only [newW, List.mem_append, List.mem_singleton] at hr
+    rcases hr with hr | rfl
+    · exact hw r hr
+    · unfold WOk; cases u <;> simp <;> exact Nat.le_of_eq (Nat.mul_comm _ _)
+
+/-- `newF`: a new record whose farm-token reserve arrives with it; the proxy-farming reserve
+    `pa` must be provided by the caller -/
+theorem newF_delta (s : St) (farm fn fa : Nat) (kind : Kind) (pn pa : Nat) :
+    let s' := (newF s farm fn fa kind pn pa).1
+    (newF s farm fn fa kind pn pa).2 = s.wf.length ∧
+    (∀ κ, R s' κ = R s κ + (if kind = .locked ∧ pn = κ then pa else 0)) ∧
+    (∀ v, H s' v = H s v + (if kind = .wlp ∧ pn = v then pa else 0)) ∧
+    (∀ g φ, F s' g φ = F s g φ + (if farm = g ∧ fn = φ then fa else 0)) ∧
+    (∀ g φ, s'.hf g φ = s.hf g φ + (if farm = g ∧ fn = φ then fa else 0)) ∧
+    s'.wl = s.wl ∧ s'.lk = s.lk ∧ s'.lp = s.lp ∧ (Pt s → Pt s') := by
+  refine ⟨rfl, ?_, ?_, ?_, ?_, rfl, rfl, rfl, ?_⟩
+  · intro κ
+    by_cases hk : kind = .locked ∧ pn = κ <;> simp [newF, R, remPLk, hk]
+    omega
+  · intro v
+    by_cases hk : kind = .wlp ∧ pn = v <;> simp [newF, H, remPW, hk]
+  · intro g φ
+    by_cases hk : farm = g ∧ fn = φ <;> simp [newF, F, remFAt, hk]
+  · intro g φ
+    by_cases hg : g = farm
+    · subst hg
+      by_cases hf : φ = fn
+      · subst hf; simp [newF]
+      · simp [newF, hf, Ne.symm hf]
+    · simp [newF, hg, Ne.symm hg]
+  · rintro ⟨hw, hf⟩
+    refine ⟨hw, ?_⟩
+    intro q hq
+    simp only [newF, List.mem_append, List.mem_singleton] at hq
+    rcases hq with hq | rfl
+    · exact hf q hq
+    · exact ⟨Nat.le_refl _, Nat.le_refl _⟩
+
 /-! ### takeW -/
 
-theorem takeW_spec {s s' : St} {w x p : Nat} {r : WLp} (h : takeW s w x = some (s', r, p)) :
+theorem takeW_spec {s s' : St} {w x p : Nat} {r : WLp} {o : Bool}
+    (h : takeW s w x o = some (s', r, p)) :
     s.wl[w]? = some r ∧ 0 < x ∧ x ≤ r.circ ∧ part r.locked r.total x = some p ∧ p ≤ r.rem ∧
     p ≤ s.lk r.k ∧
-    s' = { setW s w { r with circ := r.circ - x, rem := r.rem - p } with
+    s' = { setW s w ⟨r.total, r.k, r.locked, r.circ - x, r.held,
+                     if o then r.orph + x else r.orph, r.rem - p⟩ with
            lk := fun i => if i = r.k then s.lk i - p else s.lk i } := by
   simp only [takeW, Option.bind_eq_bind, Option.bind_eq_some_iff, req_eq_some, sub?_eq_some,
     Bag.sub?_eq_some, Option.pure_def, Option.some.injEq, Prod.mk.injEq] at h
@@ -56,7 +164,8 @@ theorem takeW_spec {s s' : St} {w x p : Nat} {r : WLp} (h : takeW s w x = some (
   exact ⟨hr, hx, hc, hp, hrem, hlk, rfl⟩
 
 /-- how the aggregates move under `takeW` -/
-theorem takeW_delta {s s' : St} {w x p : Nat} {r : WLp} (h : takeW s w x = some (s', r, p)) :
+theorem takeW_delta {s s' : St} {w x p : Nat} {r : WLp} {o : Bool}
+    (h : takeW s w x o = some (s', r, p)) :
     C s' + x = C s ∧
     (∀ κ, R s' κ + (if r.k = κ then p else 0) = R s κ) ∧
     (∀ κ, s'.lk κ + (if r.k = κ then p else 0) = s.lk κ) ∧
@@ -65,10 +174,10 @@ theorem takeW_delta {s s' : St} {w x p : Nat} {r : WLp} (h : takeW s w x = some 
   obtain ⟨hr, hx, hc, hp, hrem, hlk, rfl⟩ := takeW_spec h
   have hpm := part_mul_le hp
   refine ⟨?_, ?_, ?_, ?_, ?_, rfl, rfl, ?_, rfl, ?_⟩
-  · have := sumOf_set (·.circ) s.wl w r { r with circ := r.circ - x, rem := r.rem - p } hr
+  · have := sumOf_set (·.circ) s.wl w r (⟨r.total, r.k, r.locked, r.circ - x, r.held, if o then r.orph + x else r.orph, r.rem - p⟩ : WLp) hr
     simp only [C, setW] at *; omega
   · intro κ
-    have := sumOf_set (remAt κ) s.wl w r { r with circ := r.circ - x, rem := r.rem - p } hr
+    have := sumOf_set (remAt κ) s.wl w r (⟨r.total, r.k, r.locked, r.circ - x, r.held, if o then r.orph + x else r.orph, r.rem - p⟩ : WLp) hr
     simp only [R, setW]
     by_cases hk : r.k = κ
     · simp only [remAt, hk, if_true] at this ⊢; omega
@@ -80,7 +189,7 @@ theorem takeW_delta {s s' : St} {w x p : Nat} {r : WLp} (h : takeW s w x = some 
   · intro g φ; rfl
   · intro v; rfl
   · intro v
-    have := heldOf_set s w v r { r with circ := r.circ - x, rem := r.rem - p } hr
+    have := heldOf_set s w v r (⟨r.total, r.k, r.locked, r.circ - x, r.held, if o then r.orph + x else r.orph, r.rem - p⟩ : WLp) hr
     simp only [heldOf, setW] at *
     rw [this]
     split
